@@ -100,7 +100,8 @@ def summary(v, has_pressure, has_fpol, tokamak=True, orthogonal=True):
         else:
             allowed = np.zeros(a.shape, bool)
             kind = "anywhere"
-        n_bad = int((bad & ~allowed).sum())
+        # the documented exceptions are NaN ("undefined" / "not calculated"): an infinity is never documented, wherever it is
+        n_bad = int(((bad & ~allowed) | np.isinf(a)).sum())
         if n_bad:
             s["nonfinite"][k] = {"count": n_bad, "of": int(a.size), "where": kind, "inf": bool(np.isinf(a).any())}
     for base in ("hy", "dy"):
